@@ -374,3 +374,39 @@ Definition cml_sync_sa (g : cgraph) (e : cexp) (m : cml) (s a : list nat) : cml 
   cml_sync_ids g e m (map (fun i => cg_id g i s a) (seq 0 (length (cgS g)))).
 Definition cml_ctor (g : cgraph) (e : cexp) (toSync : bool) : cml :=
   if toSync then cml_sync_all g e (cml_new g) else cml_new g.
+
+(* op sequences over a cooperative experience and one CooperativeMaximumLikelihoodModel *)
+Inductive cop2 :=
+| C2Exp (o : cop)                      (* record / reset on the experience *)
+| C2SyncAll                            (* model.sync() *)
+| C2SyncSA (s a : list nat)            (* model.sync(s, a) *)
+| C2SyncIds (ids : list nat).          (* model.sync(indeces) *)
+Definition cml_step (g : cgraph) (st : cexp * cml) (o : cop2) : cexp * cml :=
+  match o with
+  | C2Exp o' => (cexp_step g (fst st) o', snd st)
+  | C2SyncAll => (fst st, cml_sync_all g (fst st) (snd st))
+  | C2SyncSA s a => (fst st, cml_sync_sa g (fst st) (snd st) s a)
+  | C2SyncIds ids => (fst st, cml_sync_ids g (fst st) (snd st) ids)
+  end.
+(* experience built by [pre]; model constructed then (flag toSync); then [post] *)
+Definition crun (g : cgraph) (pre : list cop) (toSync : bool) (post : list cop2) : cexp * cml :=
+  let e0 := cexp_after g pre in fold_left (cml_step g) post (e0, cml_ctor g e0 toSync).
+Definition CT (m : cml) (i j v : nat) : Q := get3 0 (cm_tr m) i j v.
+Definition CR (m : cml) (i j : nat) : Q := get2 0 (cm_rw m) i j.
+
+(* ------------------------------------------------------------------ Factored::Bandit::Experience *)
+(* One local bandit table per dependency group; the arm of group i is toIndexPartial(deps[i], A, a). *)
+Record fbexp := mkFb { fb_nodes : list bexp; fb_ts : nat }.
+Definition fbnode (e : fbexp) (i : nat) : bexp := nth i (fb_nodes e) (bexp_new 0).
+(* src: src/Factored/Bandit/Experience.cpp:constructor / reset *)
+Definition fbexp_new (A : list nat) (deps : list (list nat)) : fbexp :=
+  mkFb (map (fun d => bexp_new (pspace d A)) deps) 0.
+(* src: src/Factored/Bandit/Experience.cpp:record — per group: ++c[aId]; delta; q += delta/c; M2 += delta*(r-q) *)
+Definition fbexp_record (A : list nat) (deps : list (list nat)) (e : fbexp) (a : list nat) (rews : list Q) : fbexp :=
+  mkFb (map (fun i => bexp_record (fbnode e i) (pidx (nth i deps []) A a) (nth i rews 0)) (seq 0 (length deps)))
+       (S (fb_ts e)).
+Inductive fbop := FRecord (a : list nat) (rews : list Q) | FReset.
+Definition fbexp_step (A : list nat) (deps : list (list nat)) (e : fbexp) (o : fbop) : fbexp :=
+  match o with FRecord a rews => fbexp_record A deps e a rews | FReset => fbexp_new A deps end.
+Definition fbexp_after (A : list nat) (deps : list (list nat)) (ops : list fbop) : fbexp :=
+  fold_left (fbexp_step A deps) ops (fbexp_new A deps).
